@@ -9,6 +9,10 @@ C['C01']=("Every encoder Read method under contract is proved, for all objects w
  "Not yet under contract: Transaction.Read/Write, Account.Read, FilePath.Write, FileResumeData marshal/unmarshal, GetNewsArtListData.")
 C['C05']=("For each of the 43 registered transaction handlers the real control flow is executed symbolically with the requester's 64-bit bitmap, the target kind and all request fields as free symbols; at every effect site (classified by callee) the path condition is proved to imply the privilege that spec/privileges.spec (written from the protocol document and the property text) assigns to that effect and kind; unclassified effects, spurious denials, effects before a denial, a denial that is not returned and success replies without an always-required privilege are separate obligations. Authorize and AccessBitmap.IsSet are proved functionally (bit i from the most significant bit of byte 0).",
  "Authorize is abstracted to priv(recv,i) inside handlers (its own contract is proved); target kinds limited to directory/regular file; the parsed request is assumed not to be modified during the handler; effect classification is by callee name (govc/stdmodels.go effectTable).")
+C['C06']=("Both account-creation paths (350 NewUser and the create branch of 349 UpdateUser) are executed symbolically; the 64-iteration subset loop carries the inductive invariant 'every requested bit below i is held by the creator', and at the AccountManager.Create call site the created account's bitmap (through NewAccount's proved contract) is proved to be a subset of the creator's, for all pairs of 64-bit bitmaps. In HandleDisconnectUser both BanList.Add sites and the delayed Disconnect are proved reachable only when the target lacks bit 23.",
+ "Loop ordinals and the local names newAccess / clientConn are referenced by the contracts (a rename needs a contract update). Authorize abstracted to priv (proved separately).")
+C['C16']=("AccessBitmap.IsSet/Set are proved for all 64 indices and all byte values to use bit i counted from the most significant bit of byte 0; MarshalYAML and the named form of UnmarshalYAML are proved row by row against spec/access_names.spec (40 rows from the protocol document): the field tagged with a privilege's name equals that privilege's bit, Set(j) happens iff j is defined and its name maps to true; the legacy array form is proved (loop invariant) to store element i into byte i; Authorize is proved to decide by the same bit.",
+ "YAML library behaviour is assumed; the save/load lemma is the propositional composition of the two table results; legacy form under the hypothesis that the decoded array does not alias the bitmap.")
 checks=[]
 for pid,(text,note) in sorted(C.items()):
     checks.append({"property_id":pid,"quick_cmd":"./check %s quick"%pid,"thorough_cmd":"./check %s thorough"%pid,
